@@ -7,6 +7,7 @@ import (
 	"sync"
 	"time"
 
+	"github.com/Vedant9500/WTF/internal/database"
 	"github.com/Vedant9500/WTF/internal/metrics"
 )
 
@@ -112,7 +113,11 @@ func metricsRandom(args []string) int {
 		var counters []*metrics.Counter
 		var hists []*metrics.Histogram
 		if t%3 == 2 {
-			monitorTrace(d, r, *length)
+			if t%2 == 0 {
+				monitoredDBTrace(d, r, *length)
+			} else {
+				monitorTrace(d, r, *length)
+			}
 			continue
 		}
 		for i := 0; i < *length; i++ {
@@ -230,52 +235,91 @@ func monitorTrace(d *metDriver, r interface{ Intn(int) int }, length int) {
 			pm.RecordDatabaseOperation(ops[o], time.Duration(r.Intn(5000))*time.Microsecond, s)
 			d.emit(&metEv{Op: "recdb", Name: o, Hit: s})
 		default:
-			rep := pm.GetPerformanceReport()
-			ev := &metEv{Op: "report", Searches: []int{0, 0}}
-			dbc := map[[2]int]int{}
-			dbd := map[[2]int]int{}
-			for _, m := range rep.ApplicationMetrics {
-				b2i := func(s string) int {
-					if s == "true" {
-						return 1
-					}
-					return 0
-				}
-				switch m.Name {
-				case "searches_total":
-					ev.Searches[b2i(m.Tags["cache_hit"])] += int(m.Value)
-				case "cache_hits_total":
-					ev.Hits += int(m.Value)
-				case "cache_misses_total":
-					ev.Misses += int(m.Value)
-				case "search_duration_duration_count":
-					ev.DurCount += int(m.Value)
-				case "query_length_count":
-					ev.QLCount += int(m.Value)
-				case "database_operations_total", "database_operation_duration_duration_count":
-					oi := -1
-					for j, o := range ops {
-						if o == m.Tags["operation"] {
-							oi = j
-						}
-					}
-					k := [2]int{oi, b2i(m.Tags["success"])}
-					if m.Name == "database_operations_total" {
-						dbc[k] += int(m.Value)
-					} else {
-						dbd[k] += int(m.Value)
-					}
+			emitReport(d, pm.GetPerformanceReport(), ops)
+		}
+	}
+}
+
+// emitReport reads the totals back from a performance report
+func emitReport(d *metDriver, rep metrics.PerformanceReport, ops []string) {
+	ev := &metEv{Op: "report", Searches: []int{0, 0}}
+	dbc := map[[2]int]int{}
+	dbd := map[[2]int]int{}
+	for _, m := range rep.ApplicationMetrics {
+		b2i := func(s string) int {
+			if s == "true" {
+				return 1
+			}
+			return 0
+		}
+		switch m.Name {
+		case "searches_total":
+			ev.Searches[b2i(m.Tags["cache_hit"])] += int(m.Value)
+		case "cache_hits_total":
+			ev.Hits += int(m.Value)
+		case "cache_misses_total":
+			ev.Misses += int(m.Value)
+		case "search_duration_duration_count":
+			ev.DurCount += int(m.Value)
+		case "query_length_count":
+			ev.QLCount += int(m.Value)
+		case "database_operations_total", "database_operation_duration_duration_count":
+			oi := -1
+			for j, o := range ops {
+				if o == m.Tags["operation"] {
+					oi = j
 				}
 			}
-			keys := make([][2]int, 0)
-			for k := range dbc {
-				keys = append(keys, k)
+			k := [2]int{oi, b2i(m.Tags["success"])}
+			if m.Name == "database_operations_total" {
+				dbc[k] += int(m.Value)
+			} else {
+				dbd[k] += int(m.Value)
 			}
-			sort.Slice(keys, func(i, j int) bool { return keys[i][0]*2+keys[i][1] < keys[j][0]*2+keys[j][1] })
-			for _, k := range keys {
-				ev.DB = append(ev.DB, []int{k[0], k[1], dbc[k], dbd[k]})
+		}
+	}
+	keys := make([][2]int, 0)
+	for k := range dbc {
+		keys = append(keys, k)
+	}
+	sort.Slice(keys, func(i, j int) bool { return keys[i][0]*2+keys[i][1] < keys[j][0]*2+keys[j][1] })
+	for _, k := range keys {
+		ev.DB = append(ev.DB, []int{k[0], k[1], dbc[k], dbd[k]})
+	}
+	d.emit(ev)
+}
+
+// monitoredDBTrace: the totals of a real MonitoredDatabase (searches through both monitored entry points, the result
+// cache switched on and off, invalidations, database replacements) equal the number of operations made
+func monitoredDBTrace(d *metDriver, r interface{ Intn(int) int }, length int) {
+	c := getCorpus("mix")
+	db, err := database.LoadDatabase(c.file)
+	if err != nil {
+		fatal("%v", err)
+	}
+	mdb := database.VerifNewMonitoredDatabase(db, []int{1, 3, 50}[r.Intn(3)], 0)
+	ops := []string{"load", "merge", "save"}
+	qs := []string{"frobnicate widget", "frobnicte", "widget", "zq1 qqqqzzzz", "qqqqzzzz", "delete item"}
+	for i := 0; i < length; i++ {
+		switch x := r.Intn(100); {
+		case x < 55:
+			q := qs[r.Intn(len(qs))]
+			if r.Intn(2) == 0 {
+				mdb.SearchWithMonitoring(q, 1+r.Intn(6))
+			} else {
+				mdb.SearchWithOptionsAndMonitoring(q, database.SearchOptions{Limit: 1 + r.Intn(6), UseNLP: r.Intn(2) == 0, UseFuzzy: r.Intn(2) == 0})
 			}
-			d.emit(ev)
+			d.emit(&metEv{Op: "msearch"})
+			emitReport(d, mdb.GetPerformanceReport(), ops)
+		case x < 70:
+			mdb.EnableCache(r.Intn(2) == 0)
+		case x < 78:
+			mdb.InvalidateCache()
+		case x < 86:
+			mdb.LoadDatabaseWithMonitoring(append([]database.Command(nil), c.db.Commands...))
+			d.emit(&metEv{Op: "recdb", Name: 0, Hit: true})
+		default:
+			emitReport(d, mdb.GetPerformanceReport(), ops)
 		}
 	}
 }
